@@ -10,5 +10,5 @@ trap 'rm -rf '$s EXIT
 cd /verif
 for p in "$@"; do
   PVC_REPO_SRC=$s/src timeout ${SEED_TIMEOUT:-900} ./check $p > /tmp/seed_out_$p.$$ 2>&1; rc=$?
-  echo "== $p exit $rc"; grep -E "^VIOLATION|^UNDEC|^CHECKER" /tmp/seed_out_$p.$$ | cut -c1-300 | head -4; tail -1 /tmp/seed_out_$p.$$
+  echo "== $p exit $rc"; grep -E "^VIOLATION|^UNDEC|^CHECKER" /tmp/seed_out_$p.$$ | cut -c1-300 | head -8; tail -1 /tmp/seed_out_$p.$$
 done
